@@ -125,7 +125,7 @@ func c02quote(s string) string {
 
 // ---- enumerated input spaces -------------------------------------------------
 
-var c02newickAlpha = []string{"(", ")", ",", ":", ";", "[", "]", "A", "1", "1e", "/", " ", "\t", "\n", "\r", "\x00", "é"}
+var c02newickAlpha = []string{"(", ")", ",", ":", ";", "[", "]", "A", "1", "1e", "/", " ", "\t", "\n", "\r", "\x00", "é", "'", "\""}
 
 var c02nexusAlpha = []string{"#NEXUS", "BEGIN", "DATA", "TAXA", "TAXLABELS", "TREES", "TREE", "TRANSLATE", "DIMENSIONS", "NTAX", "NCHAR", "FORMAT", "DATATYPE", "MISSING", "GAP", "MATRIX", "END",
 	";", "=", ",", "[", "]", "\n", "A", "1", "dna", "(A,B)", "-", "t=(A,B);", "4444444444444444444"}
@@ -160,6 +160,8 @@ var c02corpus = map[string][]string{
 		"#NEXUS\r\nBEGIN TAXA;\r\nTAXLABELS A B [x] C;\r\nEND;\r\nBEGIN TREES;\r\nTREE 'my tree' = (A,B,C);\r\nEND;\r\n",
 	},
 	"phyloxml": {
+		"<?xml version=\"1.0\" encoding=\"ISO-8859-1\"?>\n<phyloxml><phylogeny rooted=\"true\"><clade><clade><name>A</name></clade><clade><name>B</name></clade></clade></phylogeny></phyloxml>",
+		"<?xml version=\"1.0\" encoding=\"us-ascii\"?>\n<phyloxml xmlns=\"http://www.phyloxml.org\"><phylogeny rooted=\"false\"><clade><clade><name>A&amp;B</name></clade><clade><name><![CDATA[B]]></name></clade><clade><name>C</name></clade></clade></phylogeny></phyloxml>",
 		"<?xml version=\"1.0\"?>\n<phyloxml><phylogeny rooted=\"true\"><clade><clade><name>A</name><branch_length>1.5</branch_length></clade><clade><confidence type=\"b\">0.9</confidence><branch_length>2</branch_length><clade><name>B</name></clade><clade><taxonomy><scientific_name>C c</scientific_name></taxonomy></clade></clade></clade></phylogeny></phyloxml>",
 		"<phyloxml><phylogeny rooted=\"false\"><clade><clade><name>A</name></clade><clade><name>B</name></clade><clade><taxonomy><code>C</code><id provider=\"x\">1</id></taxonomy></clade></clade></phylogeny><phylogeny rooted=\"true\"><clade><name>X</name></clade></phylogeny></phyloxml>",
 	},
@@ -177,9 +179,9 @@ var c02tokRe = map[string]*regexp.Regexp{
 }
 
 var c02editAlpha = map[string][]string{
-	"newick":     {"(", ")", ",", ":", ";", "[", "]", "A", "1", " ", "\n"},
+	"newick":     {"(", ")", ",", ":", ";", "[", "]", "A", "1", " ", "\n", "'", "\""},
 	"nexus":      {"#NEXUS", "BEGIN", "END", "TREES", "TREE", "TAXA", "TRANSLATE", "FORMAT", "MISSING", "GAP", "DATATYPE", "MATRIX", ";", "=", ",", "[", "]", "\n", " ", "A", "4444444444444444444", "0", "-1"},
-	"phyloxml":   {"<clade", "</clade", "<name", "<phylogeny", "<branch_length", "<confidence", ">", "<", "\"", "x", "1"},
+	"phyloxml":   {"<clade", "</clade", "<name", "<phylogeny", "<branch_length", "<confidence", ">", "<", "\"", "x", "1", "<?xml version=\"1.0\" encoding=\"ISO-8859-1\"?>", "<?xml version=\"1.1\" encoding=\"UTF-16\" standalone=\"yes\"?>", "<!DOCTYPE x>", "<![CDATA[", "&amp;", "&x;"},
 	"nextstrain": {"{", "}", "[", "]", ":", ",", "\"", "\"v2\"", "\"children\"", "\"div\"", "1", "null"},
 }
 
@@ -360,7 +362,7 @@ func c02deviations(menu []int, maxDev int, f func(assign []int)) {
 func init() {
 	register(&Prop{
 		ID: "C02",
-		Rule: "inputs: (a) every string of <= L tokens over a 17-token Newick alphabet (parentheses, separators, comment brackets, labels, numbers, blanks, CR, NUL, UTF-8), L = 5 quick / 6 thorough; (b) every string of <= 3 / 4 tokens over a 29-token Nexus alphabet (all keywords, punctuation, identifiers) after each of 8 block prefixes; " +
+		Rule: "inputs: (a) every string of <= L tokens over a 19-token Newick alphabet (parentheses, separators, comment brackets, labels, numbers, blanks, CR, NUL, UTF-8, single and double quote), L = 5 quick / 6 thorough; (b) every string of <= 3 / 4 tokens over a 29-token Nexus alphabet (all keywords, punctuation, identifiers) after each of 8 block prefixes; " +
 			"(c) PhyloXML / Nextstrain: every clade tree with <= 4 clades x optional fields {absent, valid, empty, malformed} within 2 / 3 deviations x document-level variants; (d) every byte-wise truncation and every single token edit (delete, substitute, insert from the format's token alphabet; thorough: double edits over a core alphabet) of a corpus of valid documents of the four formats; " +
 			"(e) large structured inputs (nesting 1500 balanced / 10^5 unbalanced, 10^5 siblings, 10^5-byte comment/label, 10^4 trees) as plain runs. Every input is given to the single-tree reader and to the multi-tree reader (consumed to channel close) of its format under the controlled runtime; " +
 			"oracle: verdict 'completed' (never panic, exit, fuel = infinite loop, deadlock) and every delivered tree survives traversal, UpdateTipIndex/ReinitIndexes and the Newick/Nexus/PhyloXML writers; non-trivial = distinct input on which a tree was delivered or an error reported after > 0 trees",
